@@ -35,16 +35,15 @@ Shown(tt) ==
      ELSE [k |-> c.k]]]
 
 (* a painted frame: the flush is clean, the cursor hidden, and every cell   *)
-(* conforms to Surface!Want(tree); a tree the property says nothing about   *)
-(* (Surface!Judged) is judged on flush and cursor only                      *)
+(* conforms to Surface!Want(tree); a row that holds a cell the property     *)
+(* says nothing about (Surface!RowJudged) is not judged                     *)
 PaintWhy(e, tt) ==
   LET want == S!Want(e.tree, tt.rows, tt.cols) IN
   IF tt.pen # DefaultPen THEN "pen-not-reset"
   ELSE IF tt.link # 0 THEN "hyperlink-open"
   ELSE IF tt.sync THEN "sync-unbalanced"
   ELSE IF ~CursorOK(tt, <<0, 0, 0, 0>>) THEN "cursor"
-  ELSE IF ~S!Judged(want, tt.rows, tt.cols) THEN ""
-  ELSE IF S!ScreenConforms(Shown(tt), want, tt.rows, tt.cols) THEN ""
+  ELSE IF S!ScreenConformsJ(Shown(tt), want, tt.rows, tt.cols) THEN ""
   ELSE "cells"
 
 (* verdict of one observation: "" = conforms, otherwise the failing clause  *)
